@@ -66,7 +66,9 @@ class C03(spec.Spec):
                 decl = [("ex", "A"), ("ex", "B"), ("ex", "C"), ("q", "A"), ("q", "B"), ("ex_1", "C"), ("ex_2", "AB"),
                         ("dn", "C"), ("dn_2", "AB")]
                 qns = [("ex", "A", "x"), ("ex", "B", "x"), ("ex", "C", "x"), ("", "A", "x"), ("", "B", "x"),
-                       ("", "C", "x"), ("", "AB", "x"), ("q", "B", "x")]
+                       ("", "C", "x"), ("", "AB", "x"), ("q", "B", "x"),
+                       # a local part that makes the printed name look like scheme://...
+                       ("ex", "A", "//x")]
                 strs = ["ex:x", "q:x", "ex_1:x", "ex_2:x", "dn:x", "dn_2:x", "x"]
             elif full == "core":
                 decl = [("ex", "A"), ("ex", "B"), ("q", "A"), ("ex_1", "C"), ("dn", "C")]
